@@ -382,8 +382,9 @@ func c11Representations(c *core.Ctx, r *core.RNG, ic idCodec) {
 	for _, s := range []string{hex.EncodeToString(r.Bytes(ic.size + 1)), "0x", "", "zz", hex.EncodeToString(b)[1:], "0X" + hex.EncodeToString(b)} {
 		c.Eval(1)
 		got, err := ic.unmarshalText(s)
-		if err == nil {
-			// "0X.." is not a documented prefix; accept only if it decodes to the same value, anything else must be rejected
+		if err == nil && !(strings.HasPrefix(s, "0X") && bytes.Equal(got, b)) {
+			// "0X.." is not a documented prefix: refused, or accepted as the value it spells; the others have
+			// the wrong length
 			bad("text-malformed-accepted", "UnmarshalText(%q) accepted as %x", s, got)
 		}
 	}
